@@ -2,6 +2,8 @@
 # Every registered thorough command once (VERIF_SEED as given, default 20260927).  Stops at the first
 # VIOLATION / harness error.  usage: tools/thorough_sweep.sh [jobs]
 cd "$(dirname "$0")/.."
+# under `vp run --with-repo` the snapshot of /repo is the tree to check
+[ -n "$VP_RUN_REPO" ] && export VERIF_REPO="$VP_RUN_REPO"
 JOBS=${1:-16}
 for c in C06 C05 C03 C13 C12 C15 C01 C02 C10 C09 C20 C14 C04 C08 C17 C18 C11 C16 C07; do
   t0=$(date +%s)
